@@ -53,6 +53,9 @@ def props_program(draw):
     bmeta = draw(st.sampled_from(["config", "file", None]))
     if bmeta:
         cfg["seed"].append({"slot": "b1", "bare": True, "meta": bmeta, "kind": "calendar"})
+    sparse = draw(st.integers(0, 2)) == 0
+    if sparse:
+        cfg["audit"] = "sparse"  # properties are read back only at AUDIT steps, restarts and the end
     ics = [draw(gen.member_name(".ics", fancy=False)) for _ in range(2)]
     bodies = [draw(gen.calendar_object(uid=u))["raw"] for u in ("u1", "u2")]
     steps = [
@@ -94,6 +97,8 @@ def props_program(draw):
             steps.append({"op": "PROPFIND", "fe": fe, "afe": afe, "coll": coll, "depth": draw(st.sampled_from([0, 1])), "allprop": draw(st.booleans())})
         else:
             steps.append({"op": "RESTART"})
+        if sparse and draw(st.integers(0, 5)) == 0:
+            steps.append({"op": "AUDIT"})
     return {"config": cfg, "steps": steps}
 
 
